@@ -6,9 +6,10 @@ One op per input line, one observation line per op; same protocol as harness/c05
 Values are printed exactly as `m:e` (value = m·2^e, m odd) in both modes.
 -/
 import SharkVerif.Model.Kernels
+import SharkVerif.Model.KernelDerivs
 open SharkVerif.Kernels
 
-class DrvScalar (α : Type) extends Add α, Sub α, Mul α, Div α, Neg α where
+class DrvScalar (α : Type) extends Add α, Sub α, Mul α, Div α, Neg α, BEq α where
   zero : α
   one : α
   ofDyadic : Int → Int → α
@@ -195,6 +196,25 @@ def step (s : St α) (line : String) : St α × String :=
         | "sblock", [.inl a, .inl b, .inl c, .inl d] =>
           (s, showMat (k.evalBlockS ex sq (seg s.pts a b) (seg s.pts c d)))
         | "fdist", [.inl i, .inl j] => (s, DrvScalar.render (k.featureDistanceSqr ex sq (pt i) (pt j)))
+        | "dcheck", _ => (s, "ok")
+        | "pderiv", .inl a :: .inl b :: .inl c :: .inl d :: cs =>
+          let C := chunk (d - c) (b - a) (cs.map valOf)
+          let X1 := seg s.pts a b
+          let X2 := seg s.pts c d
+          match k with
+          | .linear => (s, "g=")
+          | .poly deg off => (s, "g=" ++ DrvScalar.render (polyParamDeriv deg off C X1 X2))
+          | .gauss g => (s, "g=" ++ DrvScalar.render (gaussParamDeriv ex g C X1 X2))
+          | _ => (s, "unsupported")
+        | "ideriv", .inl a :: .inl b :: .inl c :: .inl d :: cs =>
+          let C := chunk (d - c) (b - a) (cs.map valOf)
+          let X1 := seg s.pts a b
+          let X2 := seg s.pts c d
+          match k with
+          | .linear => (s, showMat (linearInputDeriv C X1 X2))
+          | .poly deg off => (s, showMat (polyInputDeriv deg off C X1 X2))
+          | .gauss g => (s, showMat (gaussInputDeriv ex g C X1 X2))
+          | _ => (s, "unsupported")
         | "gram", reg :: sizes =>
           match sizes.mapM natOf with
           | none => (s, "bad-op")
@@ -221,6 +241,7 @@ def step (s : St α) (line : String) : St α × String :=
           (s, showMat (discreteBlock t (seg s.ipts a b) (seg s.ipts c d)))
         | "sblock", [.inl a, .inl b, .inl c, .inl d] =>
           (s, showMat (discreteBlock t (seg s.ipts a b) (seg s.ipts c d)))
+        | "dcheck", _ => (s, "ok")
         | "fdist", [.inl i, .inl j] =>
           let k11 := discreteEval t (ip i) (ip i)
           let k12 := discreteEval t (ip i) (ip j)
